@@ -17,16 +17,21 @@ import (
 
 // caseT is one call: a registration path, a signature, the script arguments, the Go result.
 type caseT struct {
-	Path string   `json:"path"` // func | method | convert | convertIndex
-	In   []string `json:"in"`
-	Out  string   `json:"out"` // kind name or "void"
-	Args []sval   `json:"args"`
-	Res  string   `json:"res,omitempty"` // label in resultPool(Out)
-	Seq  *seqDef  `json:"seq,omitempty"` // set when the case only fails as a step of this sequence
+	Path  string   `json:"path"` // func | method | convert | convertIndex
+	In    []string `json:"in"`
+	Out   string   `json:"out"` // kind name or "void"
+	Args  []sval   `json:"args"`
+	Res   string   `json:"res,omitempty"`   // label in resultPool(Out)
+	Seq   *seqDef  `json:"seq,omitempty"`   // set when the case only fails as a step of this sequence
+	Style string   `json:"style,omitempty"` // call style ("" = positional call)
 }
 
 func (c caseT) sigString() string {
-	return fmt.Sprintf("%s(%s) %s", c.Path, strings.Join(c.In, ","), c.Out)
+	s := fmt.Sprintf("%s(%s) %s", c.Path, strings.Join(c.In, ","), c.Out)
+	if c.Style != "" {
+		s += " called via " + c.Style
+	}
+	return s
 }
 
 // prog is a parsed script kept for re-execution with different variable values.
@@ -148,19 +153,86 @@ func newHost(c caseT) *host {
 	return h
 }
 
-func (h *host) script(form string) string {
-	var args []string
-	for i := range h.in {
+// callStyles: how the script reaches the registered function. "" is the plain positional call.
+var callStyles = []string{"spread-all", "spread-tail", "named", "named-tail", "call_user_func", "array_map", "closure", "varfunc"}
+
+// callExpr returns statements to run before the call and the call expression itself.
+func (h *host) callExpr(style string) (pre string, call string, ok bool) {
+	n := len(h.in)
+	var args, xs []string
+	for i := 0; i < n; i++ {
 		args = append(args, fmt.Sprintf("$a%d", i))
+		xs = append(xs, fmt.Sprintf("$x%d", i))
 	}
-	call := h.callee + "(" + strings.Join(args, ", ") + ")"
+	meth := strings.TrimPrefix(h.callee, "$o->")
+	isM := h.path == "method"
+	direct := func(a string) string { return h.callee + "(" + a + ")" }
+	switch style {
+	case "":
+		return "", direct(strings.Join(args, ", ")), true
+	case "spread-all":
+		return "$l = [" + strings.Join(args, ", ") + "]; ", direct("...$l"), n >= 1
+	case "spread-tail":
+		if n < 2 {
+			return "", "", false
+		}
+		return "$l = [" + strings.Join(args[1:], ", ") + "]; ", direct("$a0, ...$l"), true
+	case "named", "named-tail":
+		var p []string
+		for i := range args {
+			if style == "named-tail" && i < n-1 {
+				continue
+			}
+			p = append(p, fmt.Sprintf("param%d: $a%d", i, i))
+		}
+		return "", direct(strings.Join(p, ", ")), n >= 1 && (style == "named" || n >= 2)
+	case "call_user_func":
+		cb := `"gofn"`
+		if isM {
+			cb = `[$o, "` + meth + `"]`
+		}
+		return "", "call_user_func(" + strings.Join(append([]string{cb}, args...), ", ") + ")", true
+	case "array_map":
+		if n < 1 {
+			return "", "", false
+		}
+		cb := `"gofn"`
+		if isM {
+			cb = `[$o, "` + meth + `"]`
+		}
+		var ls []string
+		for _, a := range args {
+			ls = append(ls, "["+a+"]")
+		}
+		return "$m = array_map(" + cb + ", " + strings.Join(ls, ", ") + "); ", "$m[0]", true
+	case "closure":
+		use := ""
+		if isM {
+			use = " use ($o)"
+		}
+		return "$w = function(" + strings.Join(xs, ", ") + ")" + use + " { return " + h.callee + "(" + strings.Join(xs, ", ") + "); }; ", "$w(" + strings.Join(args, ", ") + ")", true
+	case "varfunc":
+		if isM {
+			return `$f = "` + meth + `"; `, "$o->$f(" + strings.Join(args, ", ") + ")", true
+		}
+		return `$f = "gofn"; `, "$f(" + strings.Join(args, ", ") + ")", true
+	}
+	return "", "", false
+}
+
+func (h *host) script(form string) string {
+	style := ""
+	if i := strings.Index(form, "/"); i >= 0 {
+		form, style = form[:i], form[i+1:]
+	}
+	pre, call, _ := h.callExpr(style)
 	switch form {
 	case "bare":
-		return h.prelude + "$r = " + call + ";"
+		return h.prelude + pre + "$r = " + call + ";"
 	case "stmt":
-		return h.prelude + call + ";"
+		return h.prelude + pre + call + ";"
 	}
-	return "$c = null; try { " + h.prelude + "$r = " + call + "; } catch (Throwable $e) { $c = $e->getMessage(); }"
+	return "$c = null; try { " + h.prelude + pre + "$r = " + call + "; } catch (Throwable $e) { $c = $e->getMessage(); }"
 }
 
 type outcome struct {
